@@ -254,6 +254,34 @@ def run_case(scheme, cert_reqs, check_hostname, trust, server_hostname, server_c
     exc = None
     ws = lib.websocket.WebSocket(sslopt=sslopt)
     ws.settimeout(10)
+    if extras and extras.startswith("prior:") and via == "connect":
+        # the SAME WebSocket object made an earlier wss connection to ANOTHER host (whose certificate is right for that host): nothing
+        # of it - server name, context, trust - may decide how the measured connection is verified
+        netpatch.undo()
+        phost = extras[6:]
+        a2, b2 = socket.socketpair()
+        client2 = PairSock(fileno=a2.detach())
+        out2 = {}
+        th2 = threading.Thread(target=server_thread, args=(b2, "ca-other" if phost == "other.test" else "ca-good", False, out2), daemon=True)
+        th2.start()
+        patch2 = seams.Patch().apply(seams.socket_pairs(FakeSocketModule(client2, [])) + seams.ssl_pairs(CountingSSL()))
+        try:
+            try:
+                ws.connect("wss://%s/first" % phost)
+            except Exception:
+                pass
+            try:
+                ws.shutdown()
+            except Exception:
+                pass
+        finally:
+            patch2.undo()
+            try:
+                client2.close()
+            except Exception:
+                pass
+            th2.join(15)
+        netpatch = seams.Patch().apply(seams.socket_pairs(FakeSocketModule(client, log)) + seams.ssl_pairs(cssl))
     try:
         try:
             if via == "app":
@@ -452,7 +480,9 @@ def run_task(desc):
         if not trust.startswith("context"):
             for ex in ("ciphers", "certfile", "cert_chain", "ecdh", "handshake-flags", "opt:host", "opt:host-port", "opt:origin", "opt:header", "opt:misc",
                        "none:cert_reqs", "none:check_hostname", "none:server_hostname", "none:ca_certs+ca_cert_path", "none:cert_reqs+check_hostname+ca_certs+ca_cert_path+server_hostname",
-                       "none:ciphers+certfile+keyfile+password+ecdh_curve"):
+                       "none:ciphers+certfile+keyfile+password+ecdh_curve", "prior:other.test", "prior:good.test"):
+                if (ex.startswith("none:") or ex.startswith("prior:")) and desc["cert_reqs"] not in (0, 3):
+                    continue  # (None-valued keys and earlier connections of the same object: with cert_reqs absent and CERT_REQUIRED)
                 for chk, sc in itertools.product(CHECK_HOST, SERVER_CERT):
                     run("wss", cr, chk, trust, "absent", sc, "direct", "absent", ex)
                     if ex == "opt:host" and desc["cert_reqs"] == 0:
